@@ -494,6 +494,29 @@ def session_sequence(ctx, scratch, subsets):
                                 f"session {i} (filter accepts {sorted(accepted)}): its store holds {sorted(got)} (+{other} rows of other modules); rejected but stored: {sorted(got - set(accepted))}")
             if set(accepted) - got:
                 return ctx.fail("C17/admitted-call-not-recorded", spec, f"session {i} (filter accepts {sorted(accepted)}): its store holds {sorted(got)}")
+        # ... and a session whose configuration has NO code filter (code_filter() returns None, the base Config's answer):
+        # every call is in scope, the function without a source file included
+        db_nf = os.path.join(d, "nofilter.sqlite3")
+
+        class NoFilter(DefaultConfig):
+            def trace_store(self):
+                return SQLiteStore.make_store(db_nf)
+
+            def code_filter(self):
+                return None
+
+        with monkeytype.trace(NoFilter()):
+            for f in fns.values():
+                f(0)
+        con = sqlite3.connect(db_nf)
+        try:
+            got = {r[0] for r in con.execute("select qualname from monkeytype_call_traces where module = ?", (name,))}
+        except sqlite3.OperationalError:
+            got = set()
+        con.close()
+        ctx.label("session-without-a-code-filter")
+        if set(fns) - got:
+            return ctx.fail("C17/admitted-call-not-recorded", spec + ["no-filter-session"], f"configuration without a code filter: its store holds {sorted(got)}, called {sorted(fns)}")
     finally:
         sys.path.remove(d)
         sys.modules.pop(name, None)
